@@ -326,7 +326,7 @@ func typecheckGenerated(r FactsReq, genPkg string) (string, []string) {
 		}
 	}
 	cfg := &packages.Config{
-		Mode: packages.NeedName | packages.NeedTypes | packages.NeedSyntax | packages.NeedTypesInfo | packages.NeedFiles | packages.NeedDeps | packages.NeedImports,
+		Mode: packages.NeedName | packages.NeedTypes | packages.NeedSyntax | packages.NeedTypesInfo | packages.NeedFiles | packages.NeedImports,
 		Dir:  abs,
 	}
 	var want string
